@@ -134,7 +134,13 @@ class PixCoord:
         `np.testing.assert_allclose` with its default tolerance values.
         """
         if isinstance(other, self.__class__):
-            return np.allclose([self.x, self.y], [other.x, other.y])
+            # coordinates of different shapes are never equal (no
+            # broadcasting of one against the other)
+            if np.shape(self.x) != np.shape(other.x):
+                return False
+            # allclose is not symmetric in its arguments
+            return (np.allclose([self.x, self.y], [other.x, other.y])
+                    and np.allclose([other.x, other.y], [self.x, self.y]))
         return False
 
     def to_sky(self, wcs, origin=_DEFAULT_WCS_ORIGIN, mode=_DEFAULT_WCS_MODE):
